@@ -1,5 +1,6 @@
 import NauyacaVerif.Misc.Pump
 import NauyacaVerif.Misc.PumpTls
+import NauyacaVerif.Srv.PumpProof
 import NauyacaVerif.Gen.Tls
 
 /-! # C20  No service below TLS 1.2 and none without TLS
@@ -94,9 +95,9 @@ theorem serves_modern : ∀ p ∈ Gen.contextPaths, negotiate (range p) ⟨Ver.t
 /-- the PyOpenSSL pump: as long as no read completed the handshake there is no inner protocol,
     hence no handler call and no application byte -/
 theorem inner_needs_final (cfg : Srv.Cfg) (evs : List Srv.PEv) (h : ∀ e ∈ evs, e.noFinal) :
-    (Srv.pumpRun cfg evs).inner = none ∧ Srv.plainOut (Srv.pumpRun cfg evs) = [] ∧ Srv.handlerCalls (Srv.pumpRun cfg evs) = 0 := by
-  have hp := Srv.run_pre cfg evs {} Srv.pre_init h
-  exact ⟨hp.1, Srv.pre_plainOut _ hp⟩
+    (Srv.pumpRun cfg evs).inner = none ∧ Srv.plainOut (Srv.pumpRun cfg evs) = [] ∧ Srv.PumpTls.handlerCalls (Srv.pumpRun cfg evs) = 0 := by
+  have hp := Srv.PumpTls.run_pre cfg evs {} Srv.PumpTls.pre_init h
+  exact ⟨hp.1, Srv.PumpTls.pre_plainOut _ hp⟩
 
 /-- no service without TLS: a read that carries anything but handshake records (`bad` = plaintext,
     garbage, an alert; also application data or a close-notify) before the handshake completed closes
@@ -108,14 +109,24 @@ theorem no_plaintext (cfg : Srv.Cfg) (before : List Srv.PEv) (pre : List Srv.Ite
     (hb : ∀ e ∈ before, e.noFinal) (hpre : ∀ i ∈ pre, i.isHs = true)
     (hx : x.isHs = false ∧ x.isFinal = false) :
     let p := Srv.pumpRun cfg (before ++ [Srv.PEv.read (pre ++ x :: rest)] ++ after)
-    p.inner = none ∧ Srv.plainOut p = [] ∧ Srv.handlerCalls p = 0 ∧ (p.tcpClosed = true ∨ p.lost = true) := by
+    p.inner = none ∧ Srv.plainOut p = [] ∧ Srv.PumpTls.handlerCalls p = 0 ∧ (p.tcpClosed = true ∨ p.lost = true) := by
   intro p
-  have h1 := Srv.run_pre cfg before {} Srv.pre_init hb
-  have h2 := Srv.step_reject cfg _ h1 pre x rest hpre hx
-  have h3 := Srv.run_dead cfg after _ h2
-  have hp : Srv.Dead p := by
+  have h1 := Srv.PumpTls.run_pre cfg before {} Srv.PumpTls.pre_init hb
+  have h2 := Srv.PumpTls.step_reject cfg _ h1 pre x rest hpre hx
+  have h3 := Srv.PumpTls.run_dead cfg after _ h2
+  have hp : Srv.PumpTls.Dead p := by
     simpa [p, Srv.pumpRun, List.foldl_append] using h3
-  exact ⟨hp.1.1, (Srv.pre_plainOut p hp.1).1, (Srv.pre_plainOut p hp.1).2, hp.2⟩
+  exact ⟨hp.1.1, (Srv.PumpTls.pre_plainOut p hp.1).1, (Srv.PumpTls.pre_plainOut p hp.1).2, hp.2⟩
+
+/-- re-export of the pump invariant (`Srv.PumpProof`): for EVERY event list, an inner protocol implies a completed handshake -/
+theorem inner_after_handshake (cfg : Srv.Cfg) (evs : List Srv.PEv) :
+    (Srv.pumpRun cfg evs).inner.isSome → (Srv.pumpRun cfg evs).hsDone = true :=
+  (Srv.pumpRun_pinv cfg evs).innerAfterHs
+
+/-- re-export: the first read is rejected -/
+theorem no_plaintext_first_read (cfg : Srv.Cfg) (rest : List Srv.Item) :
+    (Srv.pumpRun cfg [.read (.bad :: rest)]).inner = none ∧ (Srv.pumpRun cfg [.read (.bad :: rest)]).tcpClosed = true :=
+  Srv.no_plaintext cfg rest
 
 /-! non-vacuity -/
 example : Gen.contextPaths ≠ [] := by decide
